@@ -596,7 +596,7 @@ def run(rec, rng, tier, shard, nshards):
     n = exhaustive(rec, depth, shard, nshards)
     rec.notes['exhaustive'] = False
     rec.notes['exhaustive_subspace'] = f'all operation sequences of the bounded universe up to depth {depth} are executed (first-level operations partitioned over the shards)'
-    nh = 1500 if quick else 40000
+    nh = 3000 if quick else 60000
     for i in range(nh):
         case = gen_history(rng)
         try:
